@@ -2,7 +2,7 @@
 from ..rules import counters, model, process, search
 
 EXPLANATION = (
-    'Static analysis: for each of the 13 counters the set of statements modifying statistics[<folded index>] on the abstract paths of the propagation loop, shaving loop, backtrack and solve_one equals its event site: +1 exactly once on every path where the event happens and on no other (entry of a pass, each indirect filtering call, failing return, entailed status, no-store iteration through the flag protocol, solution return, value-heuristic call, max-update of depth, pop, probe, probe outcome); nobody else writes the array; labels map to the index of the same name in both get_statistics, sum for all but depth (max); each worker message overwrites its own slot. Also: the statistics indices are a permutation of 0..STATS_MAX-1 and the labels are distinct.'
+    'Static analysis: for each of the 13 counters the set of statements modifying statistics[<folded index>] on the abstract paths of the propagation loop, shaving loop, backtrack and solve_one equals its event site: +1 exactly once on every path where the event happens and on no other (entry of a pass, each indirect filtering call, failing return, entailed status, no-store iteration through the flag protocol, solution return, value-heuristic call, max-update of depth, pop, probe, probe outcome); nobody else writes the array; labels map to the index of the same name in both get_statistics, sum for all but depth (max); each worker message overwrites its own slot. Also: the statistics indices are a permutation of 0..STATS_MAX-1 and the labels are distinct. Round 3: written-out increments (s[k] = s[k] + 1) are increments; get_statistics may be table-driven; aggregators identified by what they compute (sum / max), not by name.'
 )
 
 
